@@ -666,3 +666,73 @@ func TestC04SharedSlices(t *testing.T) {
 		col.Case(fmt.Sprint(payload), (ahi-alo != n) || (bhi-blo != n), func() interface{} { return payload })
 	})
 }
+
+// ---- distinct types that print alike ----
+
+func eventA(name string, size int, tag string) interface{} {
+	type Event struct {
+		Name string
+		Size int
+		Tag  string
+	}
+	return Event{name, size, tag}
+}
+
+func eventB(name string, size int, tag string) interface{} {
+	type Event struct {
+		Tag  string
+		Name string
+	}
+	return Event{tag, name}
+}
+
+func eventC(name string, size int, tag string) interface{} {
+	type Event struct {
+		Size float64
+		Tag  []string
+		Name string
+		More bool
+	}
+	return &Event{float64(size) + 0.5, []string{tag}, name, true}
+}
+
+// TestC04SameNamedTypes: one evaluator sees objects of different struct types
+// whose printed type names coincide ("props.Event"): each run sees the fields
+// of the object passed to that run.
+func TestC04SameNamedTypes(t *testing.T) {
+	defer silenceAs("samenamed")()
+	col := evid.New("C04", "samenamed", "")
+	rapidCheck(t, col, func(rt *rapid.T) {
+		script := rapid.SampledFrom([]string{"return [Name, Tag, Size];", "return [type(Size), type(Tag), Name];", "return Name + \"/\" + string(Tag);", "return [More, Name];"}).Draw(rt, "script")
+		r, err := prepared(script, nil, rapid.Bool().Draw(rt, "noopt"))
+		if err != nil {
+			rt.Fatalf("harness: %v", err)
+		}
+		n := rapid.IntRange(2, 6).Draw(rt, "nobj")
+		var hist []string
+		for i := 0; i < n; i++ {
+			kind := rapid.SampledFrom([]string{"A", "B", "C"}).Draw(rt, "kind")
+			name, size, tag := rapid.SampledFrom([]string{"n1", "n2", ""}).Draw(rt, "name"), rapid.IntRange(0, 9).Draw(rt, "size"), rapid.SampledFrom([]string{"t1", "t2"}).Draw(rt, "tag")
+			mk := map[string]func(string, int, string) interface{}{"A": eventA, "B": eventB, "C": eventC}[kind]
+			hist = append(hist, fmt.Sprintf("%s(%s,%d,%s)", kind, name, size, tag))
+			used := r.Execute(mk(name, size, tag))
+			fresh, _ := prepared(script, nil, false)
+			ref := fresh.Execute(mk(name, size, tag))
+			payload := map[string]interface{}{"prop": "C04", "kind": "same-named-types", "script": script, "objects": hist}
+			if used.Panic != nil || ref.Panic != nil {
+				violation(rt, "C04", payload, "panic: %v %v", used.Panic, ref.Panic)
+			}
+			if (used.Err == nil) != (ref.Err == nil) || (used.Err == nil && (!lang.DeepEqual(used.Val, ref.Val) || used.Val.Inspect() != ref.Val.Inspect())) {
+				violation(rt, "C04", payload, "object %d (%s): the evaluator that saw the earlier objects gives (%s, err=%v); a fresh evaluator gives (%s, err=%v)", i, hist[i], used.Val.Describe(), used.Err, ref.Val.Describe(), ref.Err)
+			}
+			// and the fresh evaluator's answer is the object's own content
+			if ref.Err == nil && script == "return [Name, Tag, Size];" && kind == "A" {
+				want := lang.Array(lang.Str(name), lang.Str(tag), lang.Int(int64(size)))
+				if !lang.DeepEqual(ref.Val, want) {
+					violation(rt, "C04", payload, "object %d: expected %s, got %s", i, want.Describe(), ref.Val.Describe())
+				}
+			}
+		}
+		col.Case(fmt.Sprint(script, hist), true, func() interface{} { return map[string]interface{}{"script": script, "objects": hist} })
+	})
+}
